@@ -9,8 +9,8 @@ echo "== $ID: patch"; git diff --stat | tail -3
 if ! diff <(git diff) $OUT/patch.diff >/dev/null; then echo "NOTE: worktree diff differs from patch.diff"; fi
 echo "== demo WITH change (expect failure)"
 ( CARGO_TARGET_DIR=$TGT CARGO_NET_OFFLINE=true bash $OUT/demo.sh >/tmp/seed/$ID-demo-with.log 2>&1 ); echo "exit=$?"
-git stash -q
+git apply -R $OUT/patch.diff   # (not git stash: the stash is shared between worktrees)
 echo "== demo WITHOUT change (expect success)"
 ( CARGO_TARGET_DIR=$TGT CARGO_NET_OFFLINE=true bash $OUT/demo.sh >/tmp/seed/$ID-demo-without.log 2>&1 ); echo "exit=$?"
-git stash pop -q
+git apply $OUT/patch.diff
 git status --short | head -5
